@@ -1016,3 +1016,28 @@ func init() {
 	externals["context.WithDeadline"] = func(fr *frame, args []value) value { return tuple{args[0], nopCancel} }
 	externals["context.Cause"] = func(fr *frame, args []value) value { return iface{} }
 }
+
+func init() {
+	externals["maps.clone"] = func(fr *frame, args []value) value {
+		it := args[0].(iface)
+		m, _ := it.v.(*smap)
+		if m == nil {
+			return it
+		}
+		c := &smap{kt: m.kt, vt: m.vt, idx: map[interface{}]*smapEntry{}}
+		for _, e := range m.ents {
+			if e.dead {
+				continue
+			}
+			ne := &smapEntry{k: e.k, v: e.v, symK: e.symK}
+			c.ents = append(c.ents, ne)
+			c.n++
+			if ne.symK {
+				c.nsym++
+			} else {
+				c.idx[concreteKey(ne.k)] = ne
+			}
+		}
+		return iface{t: it.t, v: c}
+	}
+}
